@@ -27,22 +27,22 @@ pub const CLAIMED: &[&str] = &["C01", "C02", "C03", "C04", "C05", "C06", "C07", 
 /// Number of runs in the quick tier (thorough is wall-clock budgeted).
 pub fn quick_runs(prop: &str) -> u64 {
     match prop {
-        "C01" => 60_000,
-        "C02" => 20_000,
-        "C03" => 60_000,
-        "C04" => 40_000,
-        "C05" => 60_000,
-        "C06" => 60_000,
+        "C01" => 150_000,
+        "C02" => 30_000,
+        "C03" => 200_000,
+        "C04" => 50_000,
+        "C05" => 300_000,
+        "C06" => 400_000,
         "C07" => 160,
-        "C08" => 40_000,
-        "C09" => 40_000,
-        "C10" => 20_000,
-        "C11" => 10_000,
-        "C12" => 25_000,
-        "C13" => 40_000,
-        "C16" => 20_000,
-        "C17" => 40_000,
-        "C18" => 15_000,
+        "C08" => 80_000,
+        "C09" => 100_000,
+        "C10" => 30_000,
+        "C11" => 20_000,
+        "C12" => 30_000,
+        "C13" => 100_000,
+        "C16" => 40_000,
+        "C17" => 100_000,
+        "C18" => 25_000,
         _ => 10_000,
     }
 }
